@@ -302,9 +302,11 @@ static void add_remaining_task_fstack(struct uftrace_data *handle, struct rb_roo
 			if (fstack == NULL)
 				continue;
 
-			if (fstack->addr == 0)
-				continue;
-
+			/*
+			 * a frame inherited at fork() (addr 0) that never returns, e.g. the
+			 * main() of a child that calls exit(), is part of the task's run time
+			 * (report_functions counts it too, as <0>)
+			 */
 			if (fstack->total_time > last_time)
 				continue;
 
